@@ -42,6 +42,18 @@ CHECKS.update({
     "C16": _coll("Panic-point enumerator: for every callback-calling operation, every callback index (predicate, key fn, Clone, Drop, iterator step) as the panic point, with and without follow-up use; after unwinding CollTrace requires: no id dropped twice (now or later), no dropped/moved-out id reachable in any container, no duplicate ids, caller-held values not dropped; leaks allowed.", "6/C16"),
     "C17": _coll("Box programs (new_in, drop, into_inner, leak, into_raw/from_raw round trip, from_iter_in, Vec->boxed slice, Debug forwarding) on bumpalo and std Box twins validated against Coll!Sem; BoxDropReleasesNoMemory checks that no global-allocator free and no accounting change happens at Box drop.", "6/C17"),
 })
+CHECKS["C20"] = dict(category="model_checking", design_ref="6/C20",
+    text=("(A) Threads.tla: threads x arenas with memory-access-level interleaving, vector-clock happens-before, invariants NoRace, Frame and "
+          "SentinelNeverWritten checked exhaustively by TLC (2 threads, 2 arenas, 3 calls each, one hand-over). (B) multi_driver runs pairs of arena programs "
+          "in every order-preserving interleaving on one thread, on two to four concurrent threads, and with hand-over to a helper thread; each arena's projection "
+          "of the execution is validated by the single-arena specs ArenaMonitor and ArenaTrace (so each arena's results, placement and accounting are explained by "
+          "its own history alone), and the synchronisation log (spawn/join edges + every footer store from the hook) is validated by ThreadsTrace.tla, a "
+          "vector-clock race detector."),
+    note=("Trusted: TLC; the footer-store hook; per-thread recorder slices. Only crate-level shared state is covered (the code has exactly one such location); "
+          "races inside the global allocator or introduced by the compiler are outside the model; reads are not hooked (write-write races only in (B), read-write in (A))."),
+    technique="TLA+ model with vector clocks (TLC exhaustive) + TLC trace validation of per-arena projections and of the store/synchronisation log")
+ENGINES.append(dict(name="tlc-threads", path="spec/Threads.tla spec/ThreadsTrace.tla", serves_properties=["C20"],
+    kind_free_text="TLA+ model of threads/arenas/sentinel with vector clocks; trace-level race detector over hook events"))
 CHECKS["C05"] = dict(category="model_checking", design_ref="6/C05",
     text=("Borrow.tla is a typestate model of client programs (statements: create a token of each arena-lifetime-carrying kind, use/drop it, reset, "
           "iter_allocated_chunks, allocate more, drop/move the arena, share it with / send it to a scoped thread, send/share a token). TLC enumerates every program "
